@@ -195,10 +195,12 @@ func configs(thorough bool) []cfgCase {
 		{"lossy-m6-alphaq50", d(func(o *webp.EncoderOptions) { o.Method = 6; o.AlphaQuality = 50; o.AlphaFiltering = 2 })},
 	}
 	if !thorough {
-		// quick tier: drop two configurations whose import paths are covered by the others
+		// quick tier: drop one configuration whose import paths are covered by the others
+		// (lossless-meta stays: metadata switches Encode to encodeLossless, a second copy of the
+		// lossless import loops)
 		keep := cs[:0]
 		for _, x := range cs {
-			if x.name != "lossy-prep1" && x.name != "lossless-meta" {
+			if x.name != "lossy-prep1" {
 				keep = append(keep, x)
 			}
 		}
@@ -260,7 +262,7 @@ func run(c *Ctx) {
 					if strings.HasSuffix(p.kind, "-opaque") && alphaOnly && !cf.o.Lossless {
 						continue
 					}
-					if strings.HasSuffix(p.kind, "-lastpx") && cf.name != "lossless" && cf.name != "lossy" && cf.name != "lossy-exact" {
+					if strings.HasSuffix(p.kind, "-lastpx") && cf.name != "lossless" && cf.name != "lossless-meta" && cf.name != "lossy" && cf.name != "lossy-exact" {
 						continue
 					}
 				}
@@ -344,7 +346,7 @@ func rgbaSubcheck(c *Ctx, rng *Rand, cfgs []cfgCase) {
 		var sub []cfgCase
 		for _, x := range cfgs {
 			switch x.name {
-			case "lossless", "lossless-exact-m0", "lossy", "lossy-exact", "lossy-sharp", "lossy-sharp-exact", "lossy-prep2-dither":
+			case "lossless", "lossless-meta", "lossless-exact-m0", "lossy", "lossy-exact", "lossy-sharp", "lossy-sharp-exact", "lossy-prep2-dither":
 				sub = append(sub, x)
 			}
 		}
@@ -423,6 +425,13 @@ func rgbaSubcheck(c *Ctx, rng *Rand, cfgs []cfgCase) {
 				set(bs)
 				pls = append(pls, pl{bd.name, bs, bp.Pix})
 			}
+			{ // generic path with a non-zero origin: wrapper around a sub-image
+				wp := image.NewRGBA(image.Rect(0, 0, w+3+2, h+5+3))
+				fillNoise(wp.Pix, rng)
+				ws := wp.SubImage(image.Rect(3, 5, 3+w, 5+h)).(*image.RGBA)
+				set(ws)
+				pls = append(pls, pl{"rgba-wrapper(sub(3,5))", wrapRGBA{ws}, wp.Pix})
+			}
 			sums := make([]uint64, len(pls))
 			for i := range pls {
 				sums[i] = sum(pls[i].back)
@@ -485,6 +494,7 @@ func rgbaSubcheck(c *Ctx, rng *Rand, cfgs []cfgCase) {
 				cmp(2, 0, fmt.Sprintf("rgba-placement-bytes-differ-%s-%s-stridepad", mode, al), "premultiplied source, same pixels, different placement")
 				cmp(5, 0, fmt.Sprintf("rgba-placement-bytes-differ-%s-%s-band", mode, al), "premultiplied source, same pixels, full-width band of a taller parent")
 				cmp(6, 0, fmt.Sprintf("rgba-placement-bytes-differ-%s-%s-band", mode, al), "premultiplied source, same pixels, full-width band of a taller parent")
+				cmp(7, refIdx, fmt.Sprintf("rgba-generic-origin-bytes-differ-%s-%s", mode, al), "premultiplied source through the generic At() path: bounds at (3,5) vs at the origin")
 				// (b) fast path vs the generic At() path, and vs an NRGBA holding the converted picture
 				cmp(0, refIdx, fmt.Sprintf("rgba-fastpath-vs-generic-%s%s%s-%s", mode, ex, sh, al), "premultiplied source: *image.RGBA fast path vs generic At() path")
 				cmp(4, refIdx, fmt.Sprintf("rgba-converted-nrgba-vs-generic-%s%s%s-%s", mode, ex, sh, al), "NRGBA holding NRGBAModel.Convert(At) vs generic At() path of the RGBA source")
@@ -708,6 +718,35 @@ func modelCases(c *Ctx, rng *Rand) {
 				}
 				return sb.String()
 			}))
+			c.D.Evaluations += 3
+			// the same through encodeLossless (metadata present: second copy of the import loops),
+			// and both copies through their generic At() loop (wrapper type)
+			rt := func(src image.Image, meta bool) string {
+				o := &webp.EncoderOptions{Lossless: true, Exact: true, Quality: 40, Method: 3}
+				if meta {
+					o.EXIF = []byte{1, 2, 3}
+				}
+				var buf bytes.Buffer
+				if err := webp.Encode(&buf, src, o); err != nil {
+					return "ERR"
+				}
+				dec, err := webp.Decode(bytes.NewReader(buf.Bytes()))
+				if err != nil {
+					return "DECERR"
+				}
+				var sb strings.Builder
+				b := dec.Bounds()
+				for y := b.Min.Y; y < b.Max.Y; y++ {
+					for x := b.Min.X; x < b.Max.X; x++ {
+						n := color.NRGBAModel.Convert(dec.At(x, y)).(color.NRGBA)
+						fmt.Fprintf(&sb, "%02x%02x%02x%02x", n.A, n.R, n.G, n.B)
+					}
+				}
+				return sb.String()
+			}
+			c.Case("argb "+head, safe(func() string { return rt(im, true) }))
+			c.Case("argbgen "+head, safe(func() string { return rt(wrapImage{im}, false) }))
+			c.Case("argbgen "+head, safe(func() string { return rt(wrapImage{im}, true) }))
 			c.D.Evaluations += 3
 		}
 		c.Nontrivial(fmt.Sprintf("model|%d|%d|%v|%d", w, h, invalid, stride-w*4))
